@@ -227,6 +227,11 @@ def _flat(channel):
     return a.reshape(-1)
 
 
+def _summary(result):
+    return [(len(b.frame_array.channels), b.frame_count, tuple(_flat(ch).tobytes() for ch in b.frame_array.channels))
+            for b in result if getattr(b, 'frame_array', None) is not None]
+
+
 def check_bytes(model, data):
     """Reads `data` with the implementation and compares with `model`.  Returns ([(sig, msg)], outcome hash)."""
     from TotalDepth.BIT import ReadBIT
@@ -239,11 +244,26 @@ def check_bytes(model, data):
             seen.add(k)
             bad.append((sig, msg))
 
+    fobj = io.BytesIO(data)
     try:
-        result = ReadBIT.create_bit_frame_array_from_file(io.BytesIO(data))
+        # the way the tools use a file object: asked "is this a BIT file?" first, then read through the same object
+        if not ReadBIT.is_bit_file(fobj):
+            add({'kind': 'bit_not_recognised'}, 'is_bit_file() is False for a conformant file')
+        result = ReadBIT.create_bit_frame_array_from_file(fobj)
     except Exception as err:  # noqa
         add({'kind': 'bit_read_raises', 'exception': type(err).__name__}, 'reading raised %s: %s' % (type(err).__name__, err))
         return bad, ('raise', type(err).__name__)
+    try:
+        again = _summary(ReadBIT.create_bit_frame_array_from_file(fobj))
+        fresh = _summary(ReadBIT.create_bit_frame_array_from_file(io.BytesIO(data)))
+    except Exception as err:  # noqa
+        add({'kind': 'bit_read_raises', 'exception': type(err).__name__, 'read': 'second'},
+            'a second read raised %s: %s' % (type(err).__name__, err))
+        return bad, ('raise2', type(err).__name__)
+    if not (_summary(result) == again == fresh):
+        add({'kind': 'bit_read_depends_on_the_file_position'},
+            'the same bytes read (a) after is_bit_file(), (b) again through the same file object and (c) through a fresh one '
+            'give different log passes: %r / %r / %r' % ([x[:2] for x in _summary(result)], [x[:2] for x in again], [x[:2] for x in fresh]))
     passes = model['passes']
     if len(result) != len(passes):
         add({'kind': 'bit_pass_count'}, '%d frame arrays for a file of %d log passes' % (len(result), len(passes)))
